@@ -10,7 +10,7 @@
      Symlink        : a symbolic link to address a.
    [reachable_r], [committed]: as in Props/C01.v. *)
 From Coq Require Import List Bool NArith.
-From XV Require Import Base.Amap Base.Bytes Repo.Model Repo.Proofs Repo.Inv Repo.Restore Repo.Stamps Repo.Main.
+From XV Require Import Base.Amap Base.Bytes Repo.Model Repo.Proofs Repo.Inv Repo.Restore Repo.Stamps Repo.Main Repo.Fix Repo.FixProofs.
 Import ListNotations.
 
 (* 1. (core, recheck) after deletion, recheck materialises the committed bytes with the method
@@ -151,6 +151,135 @@ Proof.
   cbn [r_method] in M. vm_compute in M. discriminate M.
 Qed.
 
+(* ==== the code with the repairs of P44 / P42 and P41 behind switches (Repo/Fix.v) ====================================
+   [reachable_x fx r]: r is reached by ANY history of the commands with switches fx, outside K_x fx (Props/C02.v:
+   relink while P41 is not repaired, a symbolic link gone stale inside a forced carry-in).
+   [calls_x fx o w (r, []) ps]: the (target, address, method) triples of the carry_in calls that `track o ps` makes,
+   in visiting order -- the targets whose content the command commits (new, or changed content). *)
+
+(* 1x. recheck, for every value of the switches *)
+Theorem method_materialises_recheck_x fx r p c o :
+  reachable_x fx r -> committed r p c ->
+  exists e x d, find_path (recs r) p = Some (e, x) /\ r_digest x = Some d /\
+    materialised (fs (run_items_x fx r [UDelete p; XRecheck o [p]])) p (cache_addr p d)
+                 (match k_method o with Some m => m | None => r_method x end) c /\
+    find_path (recs (run_items_x fx r [UDelete p; XRecheck o [p]])) p =
+      Some (e, with_method x (match k_method o with Some m => m | None => r_method x end)).
+Proof. exact (recheck_materialises_x fx r p c o). Qed.
+
+(* 1'x. ONE track command with ANY number of targets: every target it commits ends materialised with the method
+   requested on the command line, else the configured default, from the object its record names -- whatever the
+   other targets are (equal content, so equal addresses; --force; any visiting order), outside
+     K_forced_duplicate = the command is forced, two of its calls have the same address, and P44 / P42 is not repaired.
+   The command does not panic. *)
+Theorem method_materialises_track_all fx o ps r :
+  reachable_x fx r -> NoDup ps -> K_item_x fx r (XTrack o ps) = false -> K_forced_duplicate fx r o ps = false ->
+  snd (do_item_x fx r (XTrack o ps)) <> Panic /\
+  forall p a m, In (p, a, m) (calls_x fx o (walked_of ps) (r, []) ps) ->
+    In p ps /\ m = (match t_method o with Some m => m | None => cfg_method r end) /\
+    exists c, committed (fst (do_item_x fx r (XTrack o ps))) p c /\
+              materialised (fs (fst (do_item_x fx r (XTrack o ps)))) p a m c /\
+              obj_read (fs (fst (do_item_x fx r (XTrack o ps)))) a = Some c.
+Proof. exact (track_all_materialised fx o ps r). Qed.
+
+(* the class forced-duplicate is empty once P44 / P42 is repaired ... *)
+Theorem forced_duplicate_class_empty_when_fixed fx r o ps : fixed_P44 fx = true -> K_forced_duplicate fx r o ps = false.
+Proof. exact (FixProofs.forced_duplicate_class_empty_when_fixed fx r o ps). Qed.
+
+(* ... and the statement holds without it: the full statement of the findings P42 and (its sequential content) P44 *)
+Definition C17_duplicates_full (fx : fixes) : Prop := forall r o ps p a m,
+  reachable_x fx r -> NoDup ps -> K_item_x fx r (XTrack o ps) = false ->
+  In (p, a, m) (calls_x fx o (walked_of ps) (r, []) ps) ->
+  exists c, materialised (fs (fst (do_item_x fx r (XTrack o ps)))) p a m c.
+
+Theorem C17_duplicates_full_fixed fx : fixed_P44 fx = true -> C17_duplicates_full fx.
+Proof.
+  exact (fun H r o ps p a m Hr ND G Hin =>
+    match proj2 (track_all_materialised fx o ps r Hr ND G (FixProofs.forced_duplicate_class_empty_when_fixed fx r o ps H)) p a m Hin with
+    | conj _ (conj _ (ex_intro _ c (conj _ (conj M _)))) => ex_intro _ c M
+    end).
+Qed.
+
+(* P43: `track --recheck-method m` on a path that is tracked already and whose content did not change.  The book
+   (start/ml.md) promises that it replaces the entry ("replaces previous symlinks with the copies of the files").
+   As the code was it recorded m after a touch and never touched the entry (track_method_unchanged_refuted above);
+   repaired, the entry is re-materialised with m and m is recorded.  The class of the finding is empty once repaired. *)
+Theorem track_method_unchanged_fixed fx o r p c m e x d :
+  fixed_P43 fx = true -> reachable_x fx r -> committed r p c ->
+  find_path (recs r) p = Some (e, x) -> r_digest x = Some d -> t_method o = Some m -> m <> r_method x ->
+  ws_read (fs r) p = Some c ->
+  digest_of (cfg_algo r) (match t_tob o with Some t => t | None => cfg_tob r end) c = d -> digest_of (cfg_algo r) (r_tob x) c = d ->
+  snd (do_item_x fx r (XTrack o [p])) = Ok /\
+  materialised (fs (fst (do_item_x fx r (XTrack o [p])))) p (cache_addr p d) m c /\
+  exists x', find_path (recs (fst (do_item_x fx r (XTrack o [p])))) p = Some (e, x') /\ r_method x' = m /\ r_digest x' = Some d.
+Proof. exact (FixProofs.track_method_unchanged_fixed fx o r p c m e x d). Qed.
+
+Theorem track_unchanged_class_empty_when_fixed fx o r p : fixed_P43 fx = true -> K_track_unchanged fx o r p = false.
+Proof. exact (FixProofs.track_unchanged_class_empty_when_fixed fx o r p). Qed.
+
+Check method_materialises_track_all : forall fx o ps r,
+  reachable_x fx r -> NoDup ps -> K_item_x fx r (XTrack o ps) = false -> K_forced_duplicate fx r o ps = false ->
+  snd (do_item_x fx r (XTrack o ps)) <> Panic /\
+  forall p a m, In (p, a, m) (calls_x fx o (walked_of ps) (r, []) ps) ->
+    In p ps /\ m = (match t_method o with Some m => m | None => cfg_method r end) /\
+    exists c, committed (fst (do_item_x fx r (XTrack o ps))) p c /\
+              materialised (fs (fst (do_item_x fx r (XTrack o ps)))) p a m c /\
+              obj_read (fs (fst (do_item_x fx r (XTrack o ps)))) a = Some c.
+Check C17_duplicates_full_fixed : forall fx, fixed_P44 fx = true -> C17_duplicates_full fx.
+
+(* the witness of P42 in the model of the code as it is: in the class, and the first target is left unlinked;
+   in the repaired model: outside every class, both targets are hard links to the one object *)
+Definition r_dup : repo := run_items r0 [UWrite p_txt same; UWrite q_txt same].
+Example duplicates_refuted_as_is : ~ C17_duplicates_full as_is.
+Proof.
+  intros H.
+  assert (R : reachable_x as_is r_dup).
+  { apply (reachable_x_run as_is B3 Copy Auto [UWrite p_txt same; UWrite q_txt same]). vm_compute. reflexivity. }
+  destruct (H r_dup t_hard_force [q_txt; p_txt] q_txt addr_same Hardlink R) as (c & _ & M).
+  - repeat constructor; [intros [E|[]]; discriminate E|intros []].
+  - vm_compute. reflexivity.
+  - vm_compute. left. reflexivity.
+  - destruct M as (i & n & Hw & Ho & _). vm_compute in Hw. injection Hw as <-. vm_compute in Ho. discriminate Ho.
+Qed.
+Example duplicates_witness_classes :
+  K_forced_duplicate as_is r_dup t_hard_force [q_txt; p_txt] = true /\
+  K_forced_duplicate all_fixed r_dup t_hard_force [q_txt; p_txt] = false /\
+  K_item_x all_fixed r_dup (XTrack t_hard_force [q_txt; p_txt]) = false.
+Proof. vm_compute. repeat split. Qed.
+Example duplicates_repaired :
+  materialised (fs (fst (do_item_x all_fixed r_dup (XTrack t_hard_force [q_txt; p_txt])))) q_txt addr_same Hardlink same /\
+  materialised (fs (fst (do_item_x all_fixed r_dup (XTrack t_hard_force [q_txt; p_txt])))) p_txt addr_same Hardlink same /\
+  snd (do_item_x all_fixed r_dup (XTrack t_hard_force [q_txt; p_txt])) = Ok.
+Proof.
+  split; [|split; [|vm_compute; reflexivity]].
+  - split; [vm_compute; reflexivity|]. exists 2%N. eexists. vm_compute. repeat split.
+  - split; [vm_compute; reflexivity|]. exists 2%N. eexists. vm_compute. repeat split.
+Qed.
+
+(* the witness of P43 in both models: touch + track --recheck-method symlink *)
+Definition r_touched : repo := run_items r0 [UWrite p_txt same; XTrack t0 [p_txt]; UTouch p_txt].
+Example track_method_unchanged_witness :
+  K_track_unchanged as_is t_sym r_touched p_txt = true /\ K_track_unchanged all_fixed t_sym r_touched p_txt = false /\
+  wget (fs (fst (do_item_x as_is r_touched (XTrack t_sym [p_txt])))) p_txt = Some (EFile 2%N) /\
+  wget (fs (fst (do_item_x all_fixed r_touched (XTrack t_sym [p_txt])))) p_txt = Some (ELink addr_same) /\
+  ws_read (fs (fst (do_item_x all_fixed r_touched (XTrack t_sym [p_txt])))) p_txt = Some same.
+Proof. vm_compute. repeat split. Qed.
+(* the scenario of the book: everything tracked as symbolic links, then `track --recheck-method copy` of one path
+   (no touch: the path is a link; track itself skips it, the recheck at the end replaces it) *)
+Definition t_copy : track_opts := {| t_method := Some Copy; t_tob := None; t_no_commit := false; t_force := false |}.
+Example track_method_book_scenario :
+  let r := run_items_x all_fixed r0 [UWrite p_txt same; UWrite q_txt edit; XTrack t_sym [p_txt; q_txt]] in
+  wget (fs r) p_txt = Some (ELink addr_same) /\
+  materialised (fs (fst (do_item_x all_fixed r (XTrack t_copy [p_txt])))) p_txt addr_same Copy same /\
+  wget (fs (fst (do_item_x all_fixed r (XTrack t_copy [p_txt])))) q_txt = wget (fs r) q_txt /\
+  wget (fs (fst (do_item_x as_is r (XTrack t_copy [p_txt])))) p_txt = Some (ELink addr_same).
+Proof.
+  cbv zeta. split; [vm_compute; reflexivity|]. split; [|split; vm_compute; reflexivity].
+  split; [vm_compute; reflexivity|]. eexists _, _. split; [vm_compute; reflexivity|split; [vm_compute; reflexivity|split; [reflexivity|]]].
+  intros b H. unfold oget in H. apply (get_In _ caddr_eqb_spec) in H. vm_compute in H.
+  destruct H as [H|[H|[]]]; discriminate H.
+Qed.
+
 Print Assumptions method_materialises_recheck.
 Print Assumptions method_materialises_track.
 Print Assumptions copy_independent.
@@ -158,3 +287,9 @@ Print Assumptions hardlink_is_the_object.
 Print Assumptions symlink_points_to_the_object.
 Print Assumptions method_change_replaces_entry.
 Print Assumptions stored_method_used_next_time.
+Print Assumptions method_materialises_recheck_x.
+Print Assumptions method_materialises_track_all.
+Print Assumptions forced_duplicate_class_empty_when_fixed.
+Print Assumptions C17_duplicates_full_fixed.
+Print Assumptions track_method_unchanged_fixed.
+Print Assumptions track_unchanged_class_empty_when_fixed.
